@@ -345,10 +345,17 @@ namespace occa {
       const std::string &dependency = it->first;
       const hash_t dependencyHash = hash_t::fromString(it->second);
 
+      // Chain the current content hash of every dependency (in the order of the
+      // dependency table) into the new kernel hash. The chaining must not be
+      // invertible or commutative (XOR was both): two dependencies with equal
+      // contents cancelled each other and swapped contents mapped back to an
+      // older cache entry, which made this function recurse forever
+      std::string chainedHash = newKernelHash.getFullString();
+      chainedHash += '|';
       if (io::exists(dependency)) {
         // Check whether the dependency changed
         hash_t newDependencyHash = hashFile(dependency);
-        newKernelHash ^= newDependencyHash;
+        chainedHash += newDependencyHash.getFullString();
 
         if (dependencyHash != newDependencyHash) {
           foundDependencyChanges = true;
@@ -357,6 +364,7 @@ namespace occa {
         // Dependency is missing so something changed
         foundDependencyChanges = true;
       }
+      newKernelHash = occa::hash(chainedHash);
 
       ++it;
     }
